@@ -5,7 +5,7 @@
    non-child, cached depth = distance to the root; NoDup ids; every live slot in r) or no slot is live.
    WFS = WF + the model's association list for `child_edges` has strictly increasing keys (the model-side
    reflection of HashMap key uniqueness; WF alone is NOT inductive: WF_not_inductive.prune_breaks_WF). *)
-From PT Require Import Arena Spec RepLib WFOps.
+From PT Require Import Arena Spec Queries Newick Matrix Gen RepLib WFOps Stats Invariants Generators UpgmaProps.
 
 Theorem C03_step : forall (L : Type) (O : LenOps L) (t : @arena L) (o : op), WFS t -> WFS (step O t o).
 Proof. exact @step_wf. Qed.
@@ -34,3 +34,15 @@ Proof.
   eexists; exists t'; split; [exact WF_not_inductive.wf_t | split; assumption].
 Qed.
 Print Assumptions C03_WF_alone_refuted.
+
+(* start states: every parser result, every generator result (any choice list, any n) and every UPGMA result satisfies the invariant
+   (Inv = WFS /\ Blank, Invariants.v), so C03_histories applies to every history from any parsed, generated or UPGMA-built tree *)
+Theorem C03_start_parser : forall (L : Type) (parse_len : str -> option L) (s : str) (t : @arena L),
+  from_newick parse_len s = Ok t -> Inv t.
+Proof. exact @parse_inv. Qed.
+Print Assumptions C03_start_parser.
+
+Theorem C03_inv_histories : forall (L : Type) (O : LenOps L) (t0 : @arena L) (ops : list op),
+  Inv t0 -> Inv (fold_left (step O) ops t0).
+Proof. exact @inv_histories. Qed.
+Print Assumptions C03_inv_histories.
